@@ -169,11 +169,11 @@ func validParts(path string) bool {
 }
 
 type placeExpect struct {
-	Known    bool   // the reference could evaluate the chain
-	Queue    string // expected queue ("" = rejected)
-	RuleIdx  int
-	Create   bool
-	Why      string
+	Known   bool   // the reference could evaluate the chain
+	Queue   string // expected queue ("" = rejected)
+	RuleIdx int
+	Create  bool
+	Why     string
 }
 
 // refPlace evaluates the rule chain on the pre-step world. Chains with parent rules, or inputs for which a rule
@@ -649,7 +649,6 @@ func RunPlacementCase(seed uint64, replayDir string, cmdLog *os.File) *CaseResul
 	}
 	return out
 }
-
 
 // ReplayPlacement re-runs a placement case from the seed stored in its witness.
 func ReplayPlacement(path string) int {
